@@ -165,10 +165,16 @@ def gen_mutations(r, info, conn, n):
     """n state changes through the library's setters; conn: board index -> node address (top byte) when connected"""
     out = []
     B = info["boards"]
-    if conn and r.chance(1, 2):
-        # every connected board reports the state of its first reverser (the snapshot then holds a known reverser state id)
+    if conn and r.chance(2, 3):
+        # every connected board reports a KNOWN state for each of its entities (mapped aspects: values 0.. in the generated
+        # configurations; reverser cv 30051): the results then hold known state ids, which is where copies can alias
         for bi in sorted(conn):
-            out.append("c17mut vendor %02x0000%02x%s%02x%s" % (conn[bi], 5, hexs([ord(ch) for ch in "30051"]), 1, hexs([ord(r.choice("0123"))])))
+            b = B[bi]; a = "%02x0000" % conn[bi]
+            out.append("c17mut vendor %s%02x%s%02x%s" % (a, 5, hexs([ord(ch) for ch in "30051"]), 1, hexs([ord(r.choice("0123"))])))
+            for p in b["ports"]: out.append("c17mut lcstat %s%02x%02x%02x" % (a, p[0], p[1], r.below(2)))
+            for num in b["accnum"]: out.append("c17mut acc %s%02x%02x%02x%02x%02x" % (a, num, r.below(2), 3, r.choice([0, 1]), 0))
+            for d in b["dccacc"]: out.append("c17mut csacc %s%02x%02x00%02x%02x" % (a, d[0], d[1], r.below(2), 0))
+            for g in b["segnum"][:2]: out.append("c17mut occ %s%02x%02x" % (a, g, 1))
     for _ in range(n):
         k = r.below(100)
         if not B: break
